@@ -61,7 +61,7 @@ func cmdRun(args []string) {
 	pkg := fs.String("pkg", "", "import path of the harness package")
 	fn := fs.String("func", "", "harness function")
 	params := fs.String("params", "", "k=v,...")
-	solver := fs.String("solver", "z3", "solver kind")
+	solver := fs.String("solver", "", "solver kind (default: z3-new if present, else z3)")
 	workers := fs.Int("j", 1, "workers")
 	maxPaths := fs.Int("maxpaths", 0, "path cap")
 	loopCap := fs.Int("loopcap", 0, "loop cap")
